@@ -73,3 +73,17 @@ theorem cubicDerivE_eq (x lcw s d0 d1 w d : ℝ) (hw : w ≠ 0) :
   field_simp
 
 end Bridge
+
+namespace Bridge
+open DualSound NF
+
+/-- the executed quadratic-spline inverse root is the stable root `2c/(-b-√(b²-4ac))` with
+    `a = ½(hr-hl)w`, `b = hl·w`, `c = lcdf - y` (quadratic.py, after the repair) -/
+theorem quadInvAlphaE_eq (y loc w c hl hr : ℝ) :
+    evalR (qEnv y loc w c hl hr) quadInvAlphaE =
+      (let a := (1/2 : ℝ) * (hr - hl) * w; let b := hl * w; let c' := c - y
+       2 * c' / (-b - Real.sqrt (b ^ 2 - 4 * a * c'))) := by
+  simp [quadInvAlphaE, qEnv, envOf, NF.v]
+  ring_nf
+
+end Bridge
